@@ -119,3 +119,22 @@ Proof.
     + vm_compute. left. reflexivity.
     + vm_compute. reflexivity.
 Qed.
+
+(* ---- a differing removed dict item, from the INITIAL base, with a sibling value change in the same dict and a list
+   removal elsewhere: {'d': {'a':1,'b':2,'c':3}, 'l': [1,2,3]} -> {'d': {'a':10,'c':3}, 'l': [1,2]}; base has d.b = 9 ---- *)
+From DD Require Import Delta.DeltaVerifyBase.
+Definition ex12_t1 : value := VDict [(K "d", VDict [(K "a", I 1); (K "b", I 2); (K "c", I 3)]); (K "l", VList [I 1; I 2; I 3])].
+Definition ex12_t2 : value := VDict [(K "d", VDict [(K "a", I 10); (K "c", I 3)]); (K "l", VList [I 1; I 2])].
+Definition ex12_base : value := VDict [(K "d", VDict [(K "a", I 1); (K "b", I 9); (K "c", I 3)]); (K "l", VList [I 1; I 2; I 3])].
+Definition ex12_d : delta := mk_d ex_cfg ex_ops ex12_t1 ex12_t2.
+Example ex12_detect :
+  d_val ex12_d <> [] /\ d_irem ex12_d <> [] /\
+  leaves_alone ([PKey (K "d")] ++ [PKey (K "b")])%list ex12_d = true /\ earlier_ok ([PKey (K "d")] ++ [PKey (K "b")])%list [] = true /\
+  0 < snd (ex_apply ex12_d ex12_base).
+Proof.
+  split; [vm_compute; discriminate|]. split; [vm_compute; discriminate|].
+  split; [vm_compute; reflexivity|]. split; [reflexivity|].
+  apply (apply_detects_removed_initial ex_conv ex_ro ex_ao (fun l x H => H) (fun l x H => H)
+           [PKey (K "d")] (PKey (K "b")) (I 9) ex12_d ex12_base [] (I 2) []
+           [(K "a", I 1); (K "b", I 9); (K "c", I 3)]); vm_compute; reflexivity.
+Qed.
